@@ -341,6 +341,26 @@ class AM:
         b = self.a.astype(self.dt.make(self.bs))
         require(b.data.bin == ''.join(canonical(self.dt, x) for x in self.items), 'astype(same dtype) does not reproduce the item encodings', got=b.data.bin[:80])
 
+    def do_astype_other(self, dj):
+        """astype to another dtype of the same kind (int -> int, float -> float): values converted item by item"""
+        nd = dt_from_json(dj)
+        if self.dt.kind not in ('uint', 'int', 'float') or nd.kind not in ('uint', 'int', 'float') or (self.dt.kind == 'float') != (nd.kind == 'float'):
+            return
+        vals = [self.dt.dec(b) for b in self.items]
+        try:
+            if nd.kind == 'float':
+                exp = ''.join(nd.enc(v) for v in vals)
+            else:
+                exp = ''.join(nd.enc(int(v)) for v in vals)
+        except (ValueError, OverflowError):
+            exp = None
+        r = attempt(self.a.astype, nd.make(self.bs))
+        if exp is None:
+            require(is_raised(r, ValueError), 'astype to a dtype that cannot hold an item must raise', got=r if is_raised(r) else r.tolist()[:6], src=self.dt.spec, dst=nd.spec)
+        else:
+            require(not is_raised(r) and r.data.bin == exp, 'astype does not convert the items value by value', got=r if is_raised(r) else r.data.bin[:80], expected=exp[:80], src=self.dt.spec, dst=nd.spec)
+            require(r is not self.a, 'astype must return a new Array')
+
     def do_set_dtype(self, dj):
         nd = dt_from_json(dj)
         data = ''.join(self.items) + self.trail
@@ -468,6 +488,8 @@ def step_st(draw, kinds):
         return [k, draw(st.integers(0, 3))]
     if k == 'set_dtype':
         return [k, draw(dtype_st())]
+    if k == 'astype_other':
+        return [k, draw(dtype_st(numeric_only=True))]
     if k == 'bad_dtype':
         return [k, draw(st.sampled_from(['uint', 'hex', 'ue', 'nonsense', 'float20', 'uintle12', 'bits', '<', 'int:0x']))]
     if k == 'data_edit':
@@ -478,7 +500,7 @@ def step_st(draw, kinds):
 
 
 LIST_OPS = ['getitem', 'getslice', 'setitem', 'setslice', 'delitem', 'delslice', 'append', 'extend', 'insert', 'pop', 'reverse', 'count', 'iter_copy_equals', 'astype']
-ALL_STEPS = LIST_OPS + ['set_dtype', 'bad_dtype', 'data_edit', 'data_edit', 'byteswap', 'bitwise', 'insert', 'pop', 'setitem']
+ALL_STEPS = LIST_OPS + ['astype_other', 'set_dtype', 'bad_dtype', 'data_edit', 'data_edit', 'byteswap', 'bitwise', 'insert', 'pop', 'setitem']
 
 
 def case_st(kinds, max_steps=12, trailing_prob=3):
@@ -676,7 +698,7 @@ SUBCHECKS = [
     Sub('C14.list_ops', run, strategy=case_st(LIST_OPS, trailing_prob=1000), examples={'quick': 8000, 'thorough': 120000}, ambient=('bytealigned',)),
     Sub('C14.trailing_bits_frame', run, strategy=case_st(['getitem', 'setitem', 'delitem', 'insert', 'pop', 'setslice', 'delslice', 'append', 'extend', 'reverse', 'data_edit', 'getslice'], trailing_prob=0),
         examples={'quick': 6000, 'thorough': 80000}, ambient=('bytealigned',)),
-    Sub('C14.dtype_reinterpret_byteswap_bitwise', run, strategy=case_st(['set_dtype', 'bad_dtype', 'byteswap', 'bitwise', 'data_edit', 'getitem', 'astype', 'iter_copy_equals'], max_steps=8),
+    Sub('C14.dtype_reinterpret_byteswap_bitwise', run, strategy=case_st(['set_dtype', 'bad_dtype', 'byteswap', 'bitwise', 'data_edit', 'getitem', 'astype', 'astype_other', 'iter_copy_equals'], max_steps=8),
         examples={'quick': 6000, 'thorough': 80000}, ambient=('bytealigned',)),
     Sub('C14.history', run, strategy=case_st(ALL_STEPS, max_steps=25), examples={'quick': 5000, 'thorough': 80000}, ambient=('bytealigned',)),
     Sub('C14.elementwise_promotion', run_elem, strategy=elem_case, examples={'quick': 12000, 'thorough': 200000}, ambient=('bytealigned',)),
